@@ -238,7 +238,8 @@ void run_c09(const std::vector<std::vector<std::string>>& cases, vt::Rng& rng)
          a.cfg.running_couplings = false;
          a.mb.yukawa_type = thdm::Yukawa_type::aligned;
          a.mb.zeta_u = rng.uni(-2, 2); a.mb.zeta_d = rng.uni(-100, 100); a.mb.zeta_l = rng.uni(-100, 100);
-         a.mb.Delta_u = vm::rand33(rng, 0.01); a.mb.Delta_d = vm::rand33(rng, 0.01); a.mb.Delta_l = vm::rand33(rng, 0.01);
+         const double amp = rng.below(3) == 0 ? 1.0 : rng.below(2) == 0 ? 0.1 : 0.01;      // entries up to [-1, 1]
+         a.mb.Delta_u = vm::rand33(rng, amp); a.mb.Delta_d = vm::rand33(rng, amp); a.mb.Delta_l = vm::rand33(rng, amp);
          // ... and the general model whose Pi_f encode the same couplings:
          //     rho_f = sqrt(2) M_f zeta_f / v + Delta_f  =  Pi_f / cos(beta) - sqrt(2) M_f tan(beta) / v
          ThdmPt g = a;
